@@ -188,6 +188,7 @@ func verifTSi2(six1 bool, p1 uint8, sp1, ep1 uint16, sa1, ea1 []byte, six2 bool,
 	x.TrafficSelectors = append(x.TrafficSelectors, verifSelector(six1, p1, sp1, ep1, sa1, ea1), verifSelector(six2, p2, sp2, ep2, sa2, ea2))
 	b, err := x.Marshal()
 	verifAssert(err == nil, "C03/TSi/marshal-ok")
+	verifAssert(verifSelectorEq(x.TrafficSelectors[0], six1, p1, sp1, ep1, sa1, ea1) && verifSelectorEq(x.TrafficSelectors[1], six2, p2, sp2, ep2, sa2, ea2), "C20/TSi/marshal-leaves-the-payload-unchanged")
 	verifAssert(len(b) == 4+8+2*n1+8+2*n2 && b[0] == 2 && b[1] == 0 && b[2] == 0 && b[3] == 0, "C05/TSi/count-and-reserved-zero")
 	verifAssert(verifSelectorLayout(b, 4, six1, p1, sp1, ep1, sa1, ea1), "C05/TSi/first-selector-layout")
 	verifAssert(verifSelectorLayout(b, 12+2*n1, six2, p2, sp2, ep2, sa2, ea2), "C05/TSi/second-selector-layout")
@@ -196,7 +197,6 @@ func verifTSi2(six1 bool, p1 uint8, sp1, ep1 uint16, sa1, ea1 []byte, six2 bool,
 	verifAssert(len(y.TrafficSelectors) == 2, "C03/TSi/count")
 	verifAssert(verifSelectorEq(y.TrafficSelectors[0], six1, p1, sp1, ep1, sa1, ea1) && verifSelectorEq(y.TrafficSelectors[1], six2, p2, sp2, ep2, sa2, ea2), "C03/TSi/selectors-in-order")
 	verifAssert(verifDisjoint(y.TrafficSelectors[0].StartAddress, b) && verifDisjoint(y.TrafficSelectors[1].EndAddress, b), "C20/TSi/owns-data")
-	verifAssert(verifSelectorEq(x.TrafficSelectors[0], six1, p1, sp1, ep1, sa1, ea1) && verifSelectorEq(x.TrafficSelectors[1], six2, p2, sp2, ep2, sa2, ea2), "C20/TSi/marshal-leaves-the-payload-unchanged")
 }
 
 func verifTSr2(six1 bool, p1 uint8, sp1, ep1 uint16, sa1, ea1 []byte, six2 bool, p2 uint8, sp2, ep2 uint16, sa2, ea2 []byte) {
@@ -206,6 +206,7 @@ func verifTSr2(six1 bool, p1 uint8, sp1, ep1 uint16, sa1, ea1 []byte, six2 bool,
 	x.TrafficSelectors = append(x.TrafficSelectors, verifSelector(six1, p1, sp1, ep1, sa1, ea1), verifSelector(six2, p2, sp2, ep2, sa2, ea2))
 	b, err := x.Marshal()
 	verifAssert(err == nil, "C03/TSr/marshal-ok")
+	verifAssert(verifSelectorEq(x.TrafficSelectors[0], six1, p1, sp1, ep1, sa1, ea1) && verifSelectorEq(x.TrafficSelectors[1], six2, p2, sp2, ep2, sa2, ea2), "C20/TSr/marshal-leaves-the-payload-unchanged")
 	verifAssert(len(b) == 4+8+2*n1+8+2*n2 && b[0] == 2 && b[1] == 0 && b[2] == 0 && b[3] == 0, "C05/TSr/count-and-reserved-zero")
 	verifAssert(verifSelectorLayout(b, 4, six1, p1, sp1, ep1, sa1, ea1), "C05/TSr/first-selector-layout")
 	verifAssert(verifSelectorLayout(b, 12+2*n1, six2, p2, sp2, ep2, sa2, ea2), "C05/TSr/second-selector-layout")
@@ -214,7 +215,6 @@ func verifTSr2(six1 bool, p1 uint8, sp1, ep1 uint16, sa1, ea1 []byte, six2 bool,
 	verifAssert(len(y.TrafficSelectors) == 2, "C03/TSr/count")
 	verifAssert(verifSelectorEq(y.TrafficSelectors[0], six1, p1, sp1, ep1, sa1, ea1) && verifSelectorEq(y.TrafficSelectors[1], six2, p2, sp2, ep2, sa2, ea2), "C03/TSr/selectors-in-order")
 	verifAssert(verifDisjoint(y.TrafficSelectors[0].StartAddress, b) && verifDisjoint(y.TrafficSelectors[1].EndAddress, b), "C20/TSr/owns-data")
-	verifAssert(verifSelectorEq(x.TrafficSelectors[0], six1, p1, sp1, ep1, sa1, ea1) && verifSelectorEq(x.TrafficSelectors[1], six2, p2, sp2, ep2, sa2, ea2), "C20/TSr/marshal-leaves-the-payload-unchanged")
 }
 
 //verif:bounded exactly 2 traffic selectors (address families 4 then 4)
